@@ -17,13 +17,13 @@ Proof. unfold upd. destruct (Nat.eqb k i); reflexivity. Qed.
 
 Definition ch_of (p : apc) : option nat :=
   match p with
-  | AEnq _ ch | AWait _ ch | ATimePoll _ ch | AGotDrain _ ch _ | AGotPush _ ch _ => Some ch
+  | AEnq _ ch | AWait _ ch | ATimePoll _ ch | AGotStore _ ch _ | AGotDrain _ ch _ | AGotPush _ ch _ => Some ch
   | _ => None
   end.
 
 Definition ctx_of (p : apc) : option nat :=
   match p with
-  | AEnq c _ | AWait c _ | ATimePoll c _ | AGotDrain c _ _ | AGotPush c _ _ => Some c
+  | AEnq c _ | AWait c _ | ATimePoll c _ | AGotStore c _ _ | AGotDrain c _ _ | AGotPush c _ _ => Some c
   | _ => None
   end.
 
@@ -32,10 +32,17 @@ Definition reading (p : apc) : bool :=
   match p with AEnq _ _ | AWait _ _ | ATimePoll _ _ => true | _ => false end.
 
 Definition got (p : apc) : option nat :=
-  match p with AGotDrain _ _ v | AGotPush _ _ v => Some v | ADone (Some v) => Some v | _ => None end.
+  match p with AGotStore _ _ v | AGotDrain _ _ v | AGotPush _ _ v => Some v | ADone (Some v) => Some v | _ => None end.
 
-Definition bad_shape (p : apc) : bool :=
-  match p with AGotStore _ _ _ | ATimeStore _ _ | ATimeDrain _ _ | ATimePush _ _ => true | _ => false end.
+(* phases the asker never enters: in the repaired shape the store/drain-on-timeout phases; in the
+   shape that exists — on the executions considered, where no Ask gives up — the timeout phases *)
+Definition bad_shape (fx : bool) (p : apc) : bool :=
+  match p with
+  | AGotStore _ _ _ => fx
+  | ATimePoll _ _ | ADone None => negb fx
+  | ATimeStore _ _ | ATimeDrain _ _ | ATimePush _ _ => true
+  | _ => false
+  end.
 
 Definition early (p : apc) : bool := match p with ANew | ABuild _ => true | _ => false end.
 
@@ -48,7 +55,7 @@ Definition cown_a (a : ask) (c : nat) : Prop :=
   ap a = ABuild c \/ (a_ctx a = Some c /\ rp a <> RRecycled).
 
 Section Local.
-  Variables (s : state) (a : ask) (k : nat).
+  Variables (fx : bool) (s : state) (a : ask) (k : nat).
 
   Definition closed_a : bool := match a_ctx a with Some c => closed (ctxs s c) | None => false end.
 
@@ -61,7 +68,8 @@ Section Local.
     end.
 
   Record Local : Prop := mkLocal {
-    l_shape : bad_shape (ap a) = false;
+    l_shape : bad_shape fx (ap a) = false;
+    l_rec : fx = false -> rp a = RRecycled -> exists r, ap a = ADone r;
     l_upool : forall ch, owns_a a ch -> ~ In ch (chpool s) /\ ch < nch s;
     l_xpool : forall c, cown_a a c -> ~ In c (ctxpool s) /\ c < nctx s;
     l_pc : (forall c, ctx_of (ap a) = Some c -> a_ctx a = Some c) /\
@@ -85,8 +93,8 @@ Section Local.
   }.
 End Local.
 
-Record Inv (s : state) : Prop := mkInv {
-  i_local : forall k, Local s (asks s k) k;
+Record Inv (fx : bool) (s : state) : Prop := mkInv {
+  i_local : forall k, Local fx s (asks s k) k;
   i_uch : forall k j ch, owns_a (asks s k) ch -> owns_a (asks s j) ch -> k = j;
   i_xctx : forall k j c, cown_a (asks s k) c -> cown_a (asks s j) c -> k = j;
   i_pch : NoDup (chpool s) /\ forall ch, In ch (chpool s) -> ch < nch s;
@@ -96,11 +104,12 @@ Record Inv (s : state) : Prop := mkInv {
             (reading (ap (asks s k)) = true \/ ap (asks s k) = ADone None)
 }.
 
-Lemma inv_init nresps : Inv (init nresps).
+Lemma inv_init fx nresps : Inv fx (init nresps).
 Proof.
   constructor; cbn.
   - intros k. constructor; cbn; unfold owns_a, cown_a, closed_a, quiet_a; cbn.
     + reflexivity.
+    + intros _ H; discriminate.
     + intros ch [H|[H _]]; discriminate.
     + intros c [H|[H _]]; discriminate.
     + split; intros; discriminate.
@@ -122,19 +131,19 @@ Proof.
 Qed.
 
 (* a channel that holds a value is owned by the ask whose handler sent it *)
-Lemma val_owner s ch k : Inv s -> chans s ch = Some k -> owns_a (asks s k) ch.
+Lemma val_owner fx s ch k : Inv fx s -> chans s ch = Some k -> owns_a (asks s k) ch.
 Proof.
-  intros I H. destruct (i_val s I ch k H) as (A & _ & [R|D]).
-  - left. pose proof (l_pc _ _ _ (i_local s I k)) as (_ & P).
+  intros I H. destruct (i_val fx s I ch k H) as (A & _ & [R|D]).
+  - left. pose proof (l_pc _ _ _ _ (i_local fx s I k)) as (_ & P).
     destruct (ap (asks s k)); cbn in *; try discriminate; rewrite (P _ eq_refl) in A; exact A.
   - right. auto.
 Qed.
 
-Lemma pool_ch_empty s ch : Inv s -> In ch (chpool s) -> chans s ch = None.
+Lemma pool_ch_empty fx s ch : Inv fx s -> In ch (chpool s) -> chans s ch = None.
 Proof.
   intros I Hin. destruct (chans s ch) as [k|] eqn:E; [|reflexivity].
-  pose proof (val_owner s ch k I E) as O.
-  destruct (l_upool _ _ _ (i_local s I k) ch O). contradiction.
+  pose proof (val_owner fx s ch k I E) as O.
+  destruct (l_upool _ _ _ _ (i_local fx s I k) ch O). contradiction.
 Qed.
 
 (* ------------------------------------------------------------------ the step framework *)
@@ -142,8 +151,8 @@ Qed.
 (* Ask i moves from [asks s i] to a'; contexts change at most at c0 and channels at most at ch0, both
    of which no other ask is responsible for; pools only lose elements or gain c0 / ch0. *)
 Section Step.
-  Variables (s s' : state) (i : nat) (a' : ask) (c0 ch0 : nat).
-  Hypothesis I : Inv s.
+  Variables (fx : bool) (s s' : state) (i : nat) (a' : ask) (c0 ch0 : nat).
+  Hypothesis I : Inv fx s.
   Hypothesis Hasks : forall k, asks s' k = upd (asks s) i a' k.
   Hypothesis Hctx : forall c, c <> c0 -> ctxs s' c = ctxs s c.
   Hypothesis Hc0 : forall k, k <> i -> ~ cown_a (asks s k) c0.
@@ -169,9 +178,9 @@ Section Step.
     rewrite other_closed; auto. congruence.
   Qed.
 
-  Lemma other_local k : k <> i -> Local s' (asks s k) k.
+  Lemma other_local k : k <> i -> Local fx s' (asks s k) k.
   Proof.
-    intros Hne. pose proof (i_local s I k) as L. destruct L.
+    intros Hne. pose proof (i_local fx s I k) as L. destruct L.
     constructor; auto.
     - intros ch O. destruct (l_upool0 ch O) as (A & B). split; [|lia].
       intros H. destruct (Hchpool ch H) as [H'| ->]; [contradiction|]. now apply (Hch0 k Hne).
@@ -187,7 +196,7 @@ Section Step.
   Qed.
 
   (* what remains to be shown for the ask that moved, the resources it touched, and the values *)
-  Hypothesis Hlocal : Local s' a' i.
+  Hypothesis Hlocal : Local fx s' a' i.
   Hypothesis Howns : forall ch, owns_a a' ch -> owns_a (asks s i) ch \/ (forall k, k <> i -> ~ owns_a (asks s k) ch).
   Hypothesis Hcown : forall c, cown_a a' c -> cown_a (asks s i) c \/ (forall k, k <> i -> ~ cown_a (asks s k) c).
   Hypothesis Hpch : NoDup (chpool s') /\ forall ch, In ch (chpool s') -> ch < nch s'.
@@ -198,7 +207,7 @@ Section Step.
   Hypothesis Hvali : forall ch, ch <> ch0 -> chans s ch = Some i ->
      a_ch a' = Some ch /\ quiet_a s' a' /\ (reading (ap a') = true \/ ap a' = ADone None).
 
-  Lemma inv_step_frame : Inv s'.
+  Lemma inv_step_frame : Inv fx s'.
   Proof.
     constructor.
     - intros k. rewrite Hasks. destruct (Nat.eq_dec k i) as [->|Hne].
@@ -206,42 +215,42 @@ Section Step.
       + rewrite upd_neq by auto. now apply other_local.
     - intros k j ch. rewrite !Hasks.
       destruct (Nat.eq_dec k i) as [->|Hk], (Nat.eq_dec j i) as [->|Hj]; rewrite ?upd_eq, ?upd_neq by auto; auto.
-      + intros A B. destruct (Howns ch A) as [A'|A']; [apply (i_uch s I i j ch A' B)|destruct (A' j Hj B)].
-      + intros A B. destruct (Howns ch B) as [B'|B']; [apply (i_uch s I k i ch A B')|destruct (B' k Hk A)].
-      + apply (i_uch s I).
+      + intros A B. destruct (Howns ch A) as [A'|A']; [apply (i_uch fx s I i j ch A' B)|destruct (A' j Hj B)].
+      + intros A B. destruct (Howns ch B) as [B'|B']; [apply (i_uch fx s I k i ch A B')|destruct (B' k Hk A)].
+      + apply (i_uch fx s I).
     - intros k j c. rewrite !Hasks.
       destruct (Nat.eq_dec k i) as [->|Hk], (Nat.eq_dec j i) as [->|Hj]; rewrite ?upd_eq, ?upd_neq by auto; auto.
-      + intros A B. destruct (Hcown c A) as [A'|A']; [apply (i_xctx s I i j c A' B)|destruct (A' j Hj B)].
-      + intros A B. destruct (Hcown c B) as [B'|B']; [apply (i_xctx s I k i c A B')|destruct (B' k Hk A)].
-      + apply (i_xctx s I).
+      + intros A B. destruct (Hcown c A) as [A'|A']; [apply (i_xctx fx s I i j c A' B)|destruct (A' j Hj B)].
+      + intros A B. destruct (Hcown c B) as [B'|B']; [apply (i_xctx fx s I k i c A B')|destruct (B' k Hk A)].
+      + apply (i_xctx fx s I).
     - exact Hpch.
     - exact Hpctx.
     - intros ch k H. destruct (Nat.eq_dec ch ch0) as [->|Hne]; [now apply Hval0|].
       rewrite Hch in H by auto. rewrite Hasks. destruct (Nat.eq_dec k i) as [->|Hk].
       + rewrite upd_eq. now apply Hvali.
-      + rewrite upd_neq by auto. destruct (i_val s I ch k H) as (A & B & C). repeat split; auto.
+      + rewrite upd_neq by auto. destruct (i_val fx s I ch k H) as (A & B & C). repeat split; auto.
         now apply other_quiet.
   Qed.
 End Step.
 
 (* ------------------------------------------------------------------ helpers *)
 
-Lemma fresh_ctx_unowned s k : Inv s -> ~ cown_a (asks s k) (nctx s).
-Proof. intros I H. destruct (l_xpool _ _ _ (i_local s I k) _ H). lia. Qed.
+Lemma fresh_ctx_unowned fx s k : Inv fx s -> ~ cown_a (asks s k) (nctx s).
+Proof. intros I H. destruct (l_xpool _ _ _ _ (i_local fx s I k) _ H). lia. Qed.
 
-Lemma fresh_ch_unowned s k : Inv s -> ~ owns_a (asks s k) (nch s).
-Proof. intros I H. destruct (l_upool _ _ _ (i_local s I k) _ H). lia. Qed.
+Lemma fresh_ch_unowned fx s k : Inv fx s -> ~ owns_a (asks s k) (nch s).
+Proof. intros I H. destruct (l_upool _ _ _ _ (i_local fx s I k) _ H). lia. Qed.
 
-Lemma pooled_ctx_unowned s k c : Inv s -> In c (ctxpool s) -> ~ cown_a (asks s k) c.
-Proof. intros I Hin H. destruct (l_xpool _ _ _ (i_local s I k) _ H). contradiction. Qed.
+Lemma pooled_ctx_unowned fx s k c : Inv fx s -> In c (ctxpool s) -> ~ cown_a (asks s k) c.
+Proof. intros I Hin H. destruct (l_xpool _ _ _ _ (i_local fx s I k) _ H). contradiction. Qed.
 
-Lemma pooled_ch_unowned s k ch : Inv s -> In ch (chpool s) -> ~ owns_a (asks s k) ch.
-Proof. intros I Hin H. destruct (l_upool _ _ _ (i_local s I k) _ H). contradiction. Qed.
+Lemma pooled_ch_unowned fx s k ch : Inv fx s -> In ch (chpool s) -> ~ owns_a (asks s k) ch.
+Proof. intros I Hin H. destruct (l_upool _ _ _ _ (i_local fx s I k) _ H). contradiction. Qed.
 
-Lemma fresh_ch_empty s : Inv s -> chans s (nch s) = None.
+Lemma fresh_ch_empty fx s : Inv fx s -> chans s (nch s) = None.
 Proof.
   intros I. destruct (chans s (nch s)) as [k|] eqn:E; [|reflexivity].
-  exfalso. apply (fresh_ch_unowned s k I). now apply val_owner.
+  exfalso. apply (fresh_ch_unowned fx s k I). now apply (val_owner fx).
 Qed.
 
 Lemma remove_nth_In A (l : list A) k x : In x (remove_nth k l) -> In x l.
@@ -288,22 +297,23 @@ Qed.
 (* ------------------------------------------------------------------ the steps of the asker *)
 
 Ltac inv_ask I i Hap :=
-  pose proof (i_local _ I i) as L; destruct L as [Ls Lu Lx [Lpc1 Lpc2] Le Ll Li Lr Lf Lle Lsd Lt Lk Lfl];
+  pose proof (i_local _ _ I i) as L; destruct L as [Ls Lrec Lu Lx [Lpc1 Lpc2] Le Ll Li Lr Lf Lle Lsd Lt Lk Lfl];
   rewrite ?Hap in *; cbn in *.
 
-Lemma step_new s i o sl : Inv s -> ap (asks s i) = ANew -> Inv (step true s (LAsker i o sl)).
+Lemma step_new fx fx' s i o sl : Inv fx s -> ap (asks s i) = ANew -> Inv fx (step fx' s (LAsker i o sl)).
 Proof.
   intros I Hap. cbn. rewrite Hap.
   destruct (take (ctxpool s) (nctx s) o) as [[c pool'] n'] eqn:T.
-  pose proof (take_spec (ctxpool s) (nctx s) o c pool' n' (proj1 (i_pctx s I)) (proj2 (i_pctx s I)) T) as (T1 & T2 & T3 & T4 & T5 & T6).
+  pose proof (take_spec (ctxpool s) (nctx s) o c pool' n' (proj1 (i_pctx fx s I)) (proj2 (i_pctx fx s I)) T) as (T1 & T2 & T3 & T4 & T5 & T6).
   inv_ask I i Hap. destruct (Le eq_refl) as (E1 & E2 & E3 & E4).
   assert (Hun : forall k, k <> i -> ~ cown_a (asks s k) c).
-  { intros k _. destruct T6 as [(-> & _)|Hin]; [now apply fresh_ctx_unowned|now apply pooled_ctx_unowned]. }
+  { intros k _. destruct T6 as [(-> & _)|Hin]; [now apply (fresh_ctx_unowned fx)|now apply (pooled_ctx_unowned fx)]. }
   eapply inv_step_frame with (i := i) (c0 := c) (ch0 := nch s); try exact I; cbn; try reflexivity; auto.
-  - intros k _. now apply fresh_ch_unowned.
+  - intros k _. now apply (fresh_ch_unowned fx).
   - intros c' H. left. now apply T5.
   - constructor; cbn; unfold owns_a, cown_a, closed_a, quiet_a; cbn; rewrite ?E1, ?E2, ?E3, ?E4.
     + reflexivity.
+    + intros _ H; discriminate.
     + intros ch [H|[H _]]; discriminate.
     + intros c' [H|[H _]]; [inversion H; subst; auto|discriminate].
     + split; intros; discriminate.
@@ -319,29 +329,30 @@ Proof.
     + discriminate.
   - intros ch [H|[H _]]; discriminate.
   - intros c' [H|[H H']]; [inversion H; subst; right; exact Hun|]. cbn in H. rewrite E1 in H. discriminate.
-  - apply (i_pch s I).
+  - apply (i_pch fx s I).
   - split; auto. intros c' H. now apply T5.
-  - intros k H. rewrite (fresh_ch_empty s I) in H. discriminate.
-  - intros ch _ H. destruct (i_val s I ch i H) as (A & _). congruence.
+  - intros k H. rewrite (fresh_ch_empty fx s I) in H. discriminate.
+  - intros ch _ H. destruct (i_val fx s I ch i H) as (A & _). congruence.
 Qed.
 
-Lemma step_build s i o sl c : Inv s -> ap (asks s i) = ABuild c -> Inv (step true s (LAsker i o sl)).
+Lemma step_build fx fx' s i o sl c : Inv fx s -> ap (asks s i) = ABuild c -> Inv fx (step fx' s (LAsker i o sl)).
 Proof.
   intros I Hap. cbn. rewrite Hap.
   destruct (take (chpool s) (nch s) o) as [[ch pool'] n'] eqn:T.
-  pose proof (take_spec (chpool s) (nch s) o ch pool' n' (proj1 (i_pch s I)) (proj2 (i_pch s I)) T) as (T1 & T2 & T3 & T4 & T5 & T6).
+  pose proof (take_spec (chpool s) (nch s) o ch pool' n' (proj1 (i_pch fx s I)) (proj2 (i_pch fx s I)) T) as (T1 & T2 & T3 & T4 & T5 & T6).
   inv_ask I i Hap. destruct (Le eq_refl) as (E1 & E2 & E3 & E4).
   assert (Hun : forall k, k <> i -> ~ owns_a (asks s k) ch).
-  { intros k _. destruct T6 as [(-> & _)|Hin]; [now apply fresh_ch_unowned|now apply pooled_ch_unowned]. }
+  { intros k _. destruct T6 as [(-> & _)|Hin]; [now apply (fresh_ch_unowned fx)|now apply (pooled_ch_unowned fx)]. }
   assert (Hemp : chans s ch = None).
-  { destruct T6 as [(-> & _)|Hin]; [now apply fresh_ch_empty|now apply pool_ch_empty]. }
+  { destruct T6 as [(-> & _)|Hin]; [now apply (fresh_ch_empty fx)|now apply (pool_ch_empty fx)]. }
   assert (Hci : cown_a (asks s i) c) by (left; exact Hap).
   eapply inv_step_frame with (i := i) (c0 := c) (ch0 := ch); try exact I; cbn; try reflexivity; auto.
   - intros c' Hne. now rewrite upd_neq.
-  - intros k Hne H. apply Hne. apply (i_xctx s I k i c H Hci).
+  - intros k Hne H. apply Hne. apply (i_xctx fx s I k i c H Hci).
   - intros ch' H. left. now apply T5.
   - constructor; cbn; unfold owns_a, cown_a, closed_a, quiet_a; cbn; rewrite ?upd_eq; cbn; rewrite ?E3, ?E4.
     + reflexivity.
+    + intros _ H; discriminate.
     + intros ch' [H|[H _]]; [inversion H; subst; auto|discriminate].
     + intros c' [H|[H _]]; [discriminate|inversion H; subst; apply Lx; exact Hci].
     + split; intros ? H; inversion H; reflexivity.
@@ -358,12 +369,12 @@ Proof.
   - intros ch' [H|[H _]]; [inversion H; subst; right; exact Hun|discriminate].
   - intros c' [H|[H _]]; [discriminate|inversion H; subst; left; exact Hci].
   - split; auto. intros ch' H. now apply T5.
-  - apply (i_pctx s I).
+  - apply (i_pctx fx s I).
   - intros k H. rewrite Hemp in H. discriminate.
-  - intros ch' _ H. destruct (i_val s I ch' i H) as (A & _). rewrite E2 in A. discriminate.
+  - intros ch' _ H. destruct (i_val fx s I ch' i H) as (A & _). rewrite E2 in A. discriminate.
 Qed.
 
-Lemma step_enq s i o sl c ch : Inv s -> ap (asks s i) = AEnq c ch -> Inv (step true s (LAsker i o sl)).
+Lemma step_enq fx fx' s i o sl c ch : Inv fx s -> ap (asks s i) = AEnq c ch -> Inv fx (step fx' s (LAsker i o sl)).
 Proof.
   intros I Hap. cbn. rewrite Hap.
   inv_ask I i Hap.
@@ -371,11 +382,12 @@ Proof.
   pose proof (Lpc1 c eq_refl) as Ec. pose proof (Lpc2 ch eq_refl) as Ech.
   eapply inv_step_frame with (i := i) (c0 := nctx s) (ch0 := nch s); try exact I; cbn; try reflexivity; auto.
   - intros k. apply upd_upd.
-  - intros k _. now apply fresh_ctx_unowned.
-  - intros k _. now apply fresh_ch_unowned.
+  - intros k _. now apply (fresh_ctx_unowned fx).
+  - intros k _. now apply (fresh_ch_unowned fx).
   - rewrite !upd_eq. cbn.
     constructor; cbn; unfold owns_a, cown_a, closed_a, quiet_a in *; cbn in *; rewrite ?Hap in *; cbn in *.
     + reflexivity.
+    + intros _ H; discriminate.
     + intros ch' [H|[H _]]; [apply Lu; left; exact H|discriminate].
     + intros c' [H|[H H']]; [discriminate|]. apply Lx. right. split; auto. rewrite Hidle. discriminate.
     + split; intros ? H; inversion H; subst; auto.
@@ -392,67 +404,77 @@ Proof.
   - rewrite !upd_eq. cbn. unfold owns_a. cbn. rewrite Hap. intros ch' [H|[H _]]; [left; left; exact H|discriminate].
   - rewrite !upd_eq. cbn. unfold cown_a. cbn. intros c' [H|[H _]]; [discriminate|].
     left. right. split; auto. rewrite Hidle. discriminate.
-  - apply (i_pch s I).
-  - apply (i_pctx s I).
-  - intros k H. rewrite (fresh_ch_empty s I) in H. discriminate.
-  - rewrite !upd_eq. cbn. intros ch' _ H. destruct (i_val s I ch' i H) as (A & B & C).
+  - apply (i_pch fx s I).
+  - apply (i_pctx fx s I).
+  - intros k H. rewrite (fresh_ch_empty fx s I) in H. discriminate.
+  - rewrite !upd_eq. cbn. intros ch' _ H. destruct (i_val fx s I ch' i H) as (A & B & C).
     unfold quiet_a in B. rewrite Hidle in B. destruct B.
 Qed.
 
 (* the asker takes the value out of its channel (select's reply branch, or the poll after the deadline) *)
-Lemma step_take s i c ch v :
-  Inv s -> (ap (asks s i) = AWait c ch \/ ap (asks s i) = ATimePoll c ch) -> chans s ch = Some v ->
-  Inv (set_ap (set_chan s ch None) i (AGotDrain c ch v)).
+Lemma step_take fx s i c ch v p :
+  Inv fx s -> (ap (asks s i) = AWait c ch \/ ap (asks s i) = ATimePoll c ch) -> chans s ch = Some v ->
+  (p = AGotDrain c ch v \/ p = AGotStore c ch v) -> bad_shape fx p = false ->
+  Inv fx (set_ap (set_chan s ch None) i p).
 Proof.
-  intros I Hap Hv.
+  intros I Hap Hv Hp Hps.
+  assert (Hp1 : ch_of p = Some ch) by (destruct Hp as [-> | ->]; reflexivity).
+  assert (Hp2 : ctx_of p = Some c) by (destruct Hp as [-> | ->]; reflexivity).
+  assert (Hp3 : got p = Some v) by (destruct Hp as [-> | ->]; reflexivity).
+  assert (Hp4 : early p = false) by (destruct Hp as [-> | ->]; reflexivity).
+  assert (Hp5 : forall r, p <> ADone r) by (destruct Hp as [-> | ->]; discriminate).
+  assert (Hp6 : forall c' ch', p <> AEnq c' ch' /\ p <> ATimePoll c' ch' /\ p <> ABuild c') by (destruct Hp as [-> | ->]; repeat split; discriminate).
   assert (Hoi : owns_a (asks s i) ch) by (left; destruct Hap as [-> | ->]; reflexivity).
-  assert (v = i) by (apply (i_uch s I v i ch); [now apply val_owner|exact Hoi]). subst v.
-  destruct (i_val s I ch i Hv) as (Va & Vq & _).
-  pose proof (i_local s I i) as L. destruct L as [Ls Lu Lx [Lpc1 Lpc2] Le Ll Li Lr Lf Lle Lsd Lt Lk Lfl].
+  assert (v = i) by (apply (i_uch fx s I v i ch); [now apply (val_owner fx)|exact Hoi]). subst v.
+  destruct (i_val fx s I ch i Hv) as (Va & Vq & _).
+  pose proof (i_local fx s I i) as L. destruct L as [Ls Lrec Lu Lx [Lpc1 Lpc2] Le Ll Li Lr Lf Lle Lsd Lt Lk Lfl].
   assert (Hearly : early (ap (asks s i)) = false) by (destruct Hap as [-> | ->]; reflexivity).
   assert (Hc : a_ctx (asks s i) = Some c) by (apply Lpc1; destruct Hap as [-> | ->]; reflexivity).
   assert (Hnidle : rp (asks s i) <> RIdle).
   { intros H. apply Li in H. destruct H as [H|(c' & ch' & H)]; [congruence|]. destruct Hap as [E|E]; rewrite E in H; discriminate. }
   eapply inv_step_frame with (i := i) (c0 := nctx s) (ch0 := ch); try exact I; cbn; try reflexivity; auto.
-  - intros k _. now apply fresh_ctx_unowned.
+  - intros k _. now apply (fresh_ctx_unowned fx).
   - intros ch' Hne. now rewrite upd_neq.
-  - intros k Hne H. apply Hne. apply (i_uch s I k i ch H Hoi).
+  - intros k Hne H. apply Hne. apply (i_uch fx s I k i ch H Hoi).
   - constructor; cbn; unfold owns_a, cown_a, closed_a, quiet_a in *; cbn in *.
-    + reflexivity.
-    + intros ch' [H|[H _]]; [inversion H; subst; apply Lu; exact Hoi|discriminate].
-    + intros c' [H|H]; [discriminate|]. apply Lx. now right.
-    + split; intros ? H; inversion H; subst; auto.
-    + discriminate.
+    + exact Hps.
+    + intros Hfx H. destruct (Lrec Hfx H) as (r & E). destruct Hap as [X|X]; rewrite X in E; discriminate.
+    + intros ch' [H|[H _]]; [rewrite Hp1 in H; inversion H; subst; apply Lu; exact Hoi|destruct (Hp5 _ H)].
+    + intros c' [H|H]; [destruct (Hp6 c' 0) as (_ & _ & X); destruct (X H)|]. apply Lx. now right.
+    + split; intros ? H; [rewrite Hp2 in H|rewrite Hp1 in H]; inversion H; subst; auto.
+    + rewrite Hp4. discriminate.
     + intros _. now apply Ll.
-    + split; [intros H; contradiction|intros [H|(c' & ch' & H)]; discriminate].
+    + split; [intros H; contradiction|intros [H|(c' & ch' & H)]; [congruence|destruct (Hp6 c' ch') as (X & _); destruct (X H)]].
     + exact Lr.
     + exact Lf.
     + exact Lle.
     + exact Lsd.
-    + intros v H. inversion H; subst. split; auto.
-    + intros [H|(c' & ch' & H)]; discriminate.
-    + auto.
-  - unfold owns_a. cbn. intros ch' [H|[H _]]; [inversion H; subst; left; exact Hoi|discriminate].
-  - unfold cown_a. cbn. intros c' [H|H]; [discriminate|]. left. now right.
-  - apply (i_pch s I).
-  - apply (i_pctx s I).
+    + intros v H. rewrite Hp3 in H. inversion H; subst. split; auto.
+    + intros [H|(c' & ch' & H)]; [destruct (Hp5 _ H)|destruct (Hp6 c' ch') as (_ & X & _); destruct (X H)].
+    + intros _. destruct Hp as [-> | ->]; exact Logic.I.
+  - unfold owns_a. cbn. intros ch' [H|[H _]]; [rewrite Hp1 in H; inversion H; subst; left; exact Hoi|destruct (Hp5 _ H)].
+  - unfold cown_a. cbn. intros c' [H|H]; [destruct (Hp6 c' 0) as (_ & _ & X); destruct (X H)|]. left. now right.
+  - apply (i_pch fx s I).
+  - apply (i_pctx fx s I).
   - intros k. rewrite upd_eq. discriminate.
   - intros ch' Hne H. exfalso. apply Hne.
-    pose proof (val_owner s ch' i I H) as O. destruct O as [O|[O _]]; destruct Hap as [E|E]; rewrite E in O; cbn in O; congruence.
+    pose proof (val_owner fx s ch' i I H) as O. destruct O as [O|[O _]]; destruct Hap as [E|E]; rewrite E in O; cbn in O; congruence.
 Qed.
 
-Lemma step_wait_timer s i c ch :
-  Inv s -> ap (asks s i) = AWait c ch -> ticked (asks s i) = true -> Inv (set_ap s i (ATimePoll c ch)).
+Lemma step_wait_timer fx s i c ch :
+  fx = true ->
+  Inv fx s -> ap (asks s i) = AWait c ch -> ticked (asks s i) = true -> Inv fx (set_ap s i (ATimePoll c ch)).
 Proof.
-  intros I Hap Htick.
-  pose proof (i_local s I i) as L. destruct L as [Ls Lu Lx [Lpc1 Lpc2] Le Ll Li Lr Lf Lle Lsd Lt Lk Lfl].
+  intros Hfx I Hap Htick.
+  pose proof (i_local fx s I i) as L. destruct L as [Ls Lrec Lu Lx [Lpc1 Lpc2] Le Ll Li Lr Lf Lle Lsd Lt Lk Lfl].
   rewrite Hap in *. cbn in *.
   assert (Hoi : owns_a (asks s i) ch) by (left; rewrite Hap; reflexivity).
   eapply inv_step_frame with (i := i) (c0 := nctx s) (ch0 := nch s); try exact I; cbn; try reflexivity; auto.
-  - intros k _. now apply fresh_ctx_unowned.
-  - intros k _. now apply fresh_ch_unowned.
+  - intros k _. now apply (fresh_ctx_unowned fx).
+  - intros k _. now apply (fresh_ch_unowned fx).
   - constructor; cbn; unfold owns_a, cown_a, closed_a, quiet_a in *; cbn in *; rewrite ?Hap in *; cbn in *.
-    + reflexivity.
+    + now rewrite Hfx.
+    + intros H; congruence.
     + intros ch' [H|[H _]]; [apply Lu; now left|discriminate].
     + intros c' [H|H]; [discriminate|]. apply Lx. now right.
     + split; intros ? H; inversion H; subst; auto.
@@ -468,26 +490,27 @@ Proof.
     + exact Lfl.
   - unfold owns_a. cbn. rewrite Hap. intros ch' [H|[H _]]; [left; left; exact H|discriminate].
   - unfold cown_a. cbn. rewrite Hap. intros c' [H|H]; [discriminate|]. left. now right.
-  - apply (i_pch s I).
-  - apply (i_pctx s I).
-  - intros k H. rewrite (fresh_ch_empty s I) in H. discriminate.
-  - intros ch' _ H. destruct (i_val s I ch' i H) as (A & B & C). rewrite Hap in C. cbn in C. repeat split; auto.
+  - apply (i_pch fx s I).
+  - apply (i_pctx fx s I).
+  - intros k H. rewrite (fresh_ch_empty fx s I) in H. discriminate.
+  - intros ch' _ H. destruct (i_val fx s I ch' i H) as (A & B & C). rewrite Hap in C. cbn in C. repeat split; auto.
 Qed.
 
 (* the poll after the deadline finds nothing: the Ask fails and the channel is abandoned *)
-Lemma step_poll_none s i c ch :
-  Inv s -> ap (asks s i) = ATimePoll c ch -> chans s ch = None -> Inv (set_ap s i (ADone None)).
+Lemma step_poll_none fx s i c ch :
+  Inv fx s -> ap (asks s i) = ATimePoll c ch -> chans s ch = None -> Inv fx (set_ap s i (ADone None)).
 Proof.
   intros I Hap Hv.
-  pose proof (i_local s I i) as L. destruct L as [Ls Lu Lx [Lpc1 Lpc2] Le Ll Li Lr Lf Lle Lsd Lt Lk Lfl].
+  pose proof (i_local fx s I i) as L. destruct L as [Ls Lrec Lu Lx [Lpc1 Lpc2] Le Ll Li Lr Lf Lle Lsd Lt Lk Lfl].
   rewrite Hap in *. cbn in *.
   assert (Hoi : owns_a (asks s i) ch) by (left; rewrite Hap; reflexivity).
   pose proof (Lpc2 ch eq_refl) as Ech.
   eapply inv_step_frame with (i := i) (c0 := nctx s) (ch0 := nch s); try exact I; cbn; try reflexivity; auto.
-  - intros k _. now apply fresh_ctx_unowned.
-  - intros k _. now apply fresh_ch_unowned.
+  - intros k _. now apply (fresh_ctx_unowned fx).
+  - intros k _. now apply (fresh_ch_unowned fx).
   - constructor; cbn; unfold owns_a, cown_a, closed_a, quiet_a in *; cbn in *; rewrite ?Hap in *; cbn in *.
-    + reflexivity.
+    + exact Ls.
+    + intros _ _. eauto.
     + intros ch' [H|[_ H]]; [discriminate|]. apply Lu. left. congruence.
     + intros c' [H|H]; [discriminate|]. apply Lx. now right.
     + split; intros; discriminate.
@@ -503,10 +526,10 @@ Proof.
     + intros H. apply Lfl in H. congruence.
   - unfold owns_a. cbn. rewrite Hap. intros ch' [H|[_ H]]; [discriminate|]. left. left. cbn. congruence.
   - unfold cown_a. cbn. rewrite Hap. intros c' [H|H]; [discriminate|]. left. now right.
-  - apply (i_pch s I).
-  - apply (i_pctx s I).
-  - intros k H. rewrite (fresh_ch_empty s I) in H. discriminate.
-  - intros ch' _ H. destruct (i_val s I ch' i H) as (A & B & C). repeat split; auto.
+  - apply (i_pch fx s I).
+  - apply (i_pctx fx s I).
+  - intros k H. rewrite (fresh_ch_empty fx s I) in H. discriminate.
+  - intros ch' _ H. destruct (i_val fx s I ch' i H) as (A & B & C). repeat split; auto.
 Qed.
 
 Lemma NoDup_snoc A (l : list A) x : NoDup l -> ~ In x l -> NoDup (l ++ [x]).
@@ -518,19 +541,20 @@ Proof.
     + apply IH; auto. intros H; apply Hx; now right.
 Qed.
 
-Lemma step_drain s i c ch v :
-  Inv s -> ap (asks s i) = AGotDrain c ch v -> Inv (set_ap (set_chan s ch None) i (AGotPush c ch v)).
+Lemma step_drain fx s i c ch v :
+  Inv fx s -> ap (asks s i) = AGotDrain c ch v -> Inv fx (set_ap (set_chan s ch None) i (AGotPush c ch v)).
 Proof.
   intros I Hap.
-  pose proof (i_local s I i) as L. destruct L as [Ls Lu Lx [Lpc1 Lpc2] Le Ll Li Lr Lf Lle Lsd Lt Lk Lfl].
+  pose proof (i_local fx s I i) as L. destruct L as [Ls Lrec Lu Lx [Lpc1 Lpc2] Le Ll Li Lr Lf Lle Lsd Lt Lk Lfl].
   rewrite Hap in *. cbn in *.
   assert (Hoi : owns_a (asks s i) ch) by (left; rewrite Hap; reflexivity).
   eapply inv_step_frame with (i := i) (c0 := nctx s) (ch0 := ch); try exact I; cbn; try reflexivity; auto.
-  - intros k _. now apply fresh_ctx_unowned.
+  - intros k _. now apply (fresh_ctx_unowned fx).
   - intros ch' Hne. now rewrite upd_neq.
-  - intros k Hne H. apply Hne. apply (i_uch s I k i ch H Hoi).
+  - intros k Hne H. apply Hne. apply (i_uch fx s I k i ch H Hoi).
   - constructor; cbn; unfold owns_a, cown_a, closed_a, quiet_a in *; cbn in *; rewrite ?Hap in *; cbn in *.
     + reflexivity.
+    + intros Hfx H. destruct (Lrec Hfx H) as (r & E). discriminate.
     + intros ch' [H|[H _]]; [apply Lu; now left|discriminate].
     + intros c' [H|H]; [discriminate|]. apply Lx. now right.
     + split; intros ? H; inversion H; subst; auto.
@@ -546,26 +570,27 @@ Proof.
     + auto.
   - unfold owns_a. cbn. rewrite Hap. intros ch' [H|[H _]]; [left; left; exact H|discriminate].
   - unfold cown_a. cbn. rewrite Hap. intros c' [H|H]; [discriminate|]. left. now right.
-  - apply (i_pch s I).
-  - apply (i_pctx s I).
+  - apply (i_pch fx s I).
+  - apply (i_pctx fx s I).
   - intros k. rewrite upd_eq. discriminate.
-  - intros ch' _ H. destruct (i_val s I ch' i H) as (A & B & C). rewrite Hap in C. cbn in C. destruct C; discriminate.
+  - intros ch' _ H. destruct (i_val fx s I ch' i H) as (A & B & C). rewrite Hap in C. cbn in C. destruct C; discriminate.
 Qed.
 
-Lemma step_push s i c ch v :
-  Inv s -> ap (asks s i) = AGotPush c ch v -> Inv (set_ap (push_ch s ch) i (ADone (Some v))).
+Lemma step_push fx s i c ch v :
+  Inv fx s -> ap (asks s i) = AGotPush c ch v -> Inv fx (set_ap (push_ch s ch) i (ADone (Some v))).
 Proof.
   intros I Hap.
-  pose proof (i_local s I i) as L. destruct L as [Ls Lu Lx [Lpc1 Lpc2] Le Ll Li Lr Lf Lle Lsd Lt Lk Lfl].
+  pose proof (i_local fx s I i) as L. destruct L as [Ls Lrec Lu Lx [Lpc1 Lpc2] Le Ll Li Lr Lf Lle Lsd Lt Lk Lfl].
   rewrite Hap in *. cbn in *.
   assert (Hoi : owns_a (asks s i) ch) by (left; rewrite Hap; reflexivity).
   destruct (Lu ch Hoi) as (Hnp & Hlt).
   eapply inv_step_frame with (i := i) (c0 := nctx s) (ch0 := ch); try exact I; cbn; try reflexivity; auto.
-  - intros k _. now apply fresh_ctx_unowned.
-  - intros k Hne H. apply Hne. apply (i_uch s I k i ch H Hoi).
+  - intros k _. now apply (fresh_ctx_unowned fx).
+  - intros k Hne H. apply Hne. apply (i_uch fx s I k i ch H Hoi).
   - intros ch' H. apply in_app_or in H. destruct H as [H|[H|[]]]; auto.
   - constructor; cbn; unfold owns_a, cown_a, closed_a, quiet_a in *; cbn in *; rewrite ?Hap in *; cbn in *.
     + reflexivity.
+    + intros _ _. eauto.
     + intros ch' [H|[H _]]; discriminate.
     + intros c' [H|H]; [discriminate|]. apply Lx. now right.
     + split; intros; discriminate.
@@ -582,40 +607,41 @@ Proof.
   - unfold owns_a. cbn. intros ch' [H|[H _]]; discriminate.
   - unfold cown_a. cbn. rewrite Hap. intros c' [H|H]; [discriminate|]. left. now right.
   - split.
-    + apply NoDup_snoc; [apply (i_pch s I)|exact Hnp].
-    + intros ch' H. apply in_app_or in H. destruct H as [H|[<-|[]]]; [now apply (i_pch s I)|exact Hlt].
-  - apply (i_pctx s I).
-  - intros k H. exfalso. pose proof (val_owner s ch k I H) as O.
-    assert (k = i) by (apply (i_uch s I k i ch O Hoi)). subst k.
-    destruct (i_val s I ch i H) as (_ & _ & C). rewrite Hap in C. destruct C; discriminate.
-  - intros ch' _ H. destruct (i_val s I ch' i H) as (A & B & C). rewrite Hap in C. cbn in C. destruct C; discriminate.
+    + apply NoDup_snoc; [apply (i_pch fx s I)|exact Hnp].
+    + intros ch' H. apply in_app_or in H. destruct H as [H|[<-|[]]]; [now apply (i_pch fx s I)|exact Hlt].
+  - apply (i_pctx fx s I).
+  - intros k H. exfalso. pose proof (val_owner fx s ch k I H) as O.
+    assert (k = i) by (apply (i_uch fx s I k i ch O Hoi)). subst k.
+    destruct (i_val fx s I ch i H) as (_ & _ & C). rewrite Hap in C. destruct C; discriminate.
+  - intros ch' _ H. destruct (i_val fx s I ch' i H) as (A & B & C). rewrite Hap in C. cbn in C. destruct C; discriminate.
 Qed.
 
 (* ------------------------------------------------------------------ the steps of the handler *)
 
 (* a generic lemma for steps that only change the handler phase / flags of ask i *)
-Lemma step_ask_only s i a' :
-  Inv s ->
+Lemma step_ask_only fx s i a' :
+  Inv fx s ->
   let a := asks s i in
   ap a' = ap a -> a_ctx a' = a_ctx a -> a_ch a' = a_ch a -> nresp a' = nresp a ->
   (ticked a = true -> ticked a' = true) ->
-  (rp a' = RIdle <-> rp a = RIdle) -> (rp a' <> RRecycled <-> rp a <> RRecycled) ->
+  (rp a' = RIdle <-> rp a = RIdle) -> (rp a' <> RRecycled <-> rp a <> RRecycled) -> (rp a' = RRecycled -> rp a = RRecycled) ->
   ((rp a' = RIdle \/ rp a' = RCall (nresp a)) -> closed_a s a = false) ->
   (forall n, (rp a' = RCall n -> n <= nresp a) /\ (rp a' = RSend n -> n < nresp a)) ->
   (forall n, rp a' = RSend n -> closed_a s a = true) ->
   (quiet_a s a -> quiet_a s a') ->
   (replied_in_time a' = true -> replied_in_time a = true) ->
-  Inv (set_ask s i a').
+  Inv fx (set_ask s i a').
 Proof.
-  intros I a Eap Ectx Ech Enr Htk Hidle Hrec Hfirst Hle Hsend Hq Hfl.
-  pose proof (i_local s I i) as L. destruct L as [Ls Lu Lx [Lpc1 Lpc2] Le Ll Li Lr Lf Lle Lsd Lt Lk Lfl].
-  fold a in Ls, Lu, Lx, Lpc1, Lpc2, Le, Ll, Li, Lr, Lf, Lle, Lsd, Lt, Lk, Lfl.
+  intros I a Eap Ectx Ech Enr Htk Hidle Hrec Hrec2 Hfirst Hle Hsend Hq Hfl.
+  pose proof (i_local fx s I i) as L. destruct L as [Ls Lrec Lu Lx [Lpc1 Lpc2] Le Ll Li Lr Lf Lle Lsd Lt Lk Lfl].
+  fold a in Ls, Lrec, Lu, Lx, Lpc1, Lpc2, Le, Ll, Li, Lr, Lf, Lle, Lsd, Lt, Lk, Lfl.
   assert (Hcl : closed_a s a' = closed_a s a) by (unfold closed_a; now rewrite Ectx).
   eapply inv_step_frame with (i := i) (c0 := nctx s) (ch0 := nch s); try exact I; cbn; try reflexivity; auto.
-  - intros k _. now apply fresh_ctx_unowned.
-  - intros k _. now apply fresh_ch_unowned.
+  - intros k _. now apply (fresh_ctx_unowned fx).
+  - intros k _. now apply (fresh_ch_unowned fx).
   - constructor; unfold owns_a, cown_a in *; rewrite ?Eap, ?Ectx, ?Ech, ?Enr, ?Hcl in *.
     + exact Ls.
+    + intros Hfx H. apply Lrec; auto.
     + exact Lu.
     + intros c' [H|[H H']]; apply Lx; [now left|right; split; auto; now apply Hrec].
     + split; assumption.
@@ -633,29 +659,30 @@ Proof.
     + intros H. apply Lfl. now apply Hfl.
   - unfold owns_a. rewrite Eap, Ech. auto.
   - unfold cown_a. rewrite Eap, Ectx. intros c' [H|[H H']]; left; [now left|right; split; auto; now apply Hrec].
-  - apply (i_pch s I).
-  - apply (i_pctx s I).
-  - intros k H. rewrite (fresh_ch_empty s I) in H. discriminate.
-  - intros ch' _ H. destruct (i_val s I ch' i H) as (A & B & C). fold a in A, B, C.
+  - apply (i_pch fx s I).
+  - apply (i_pctx fx s I).
+  - intros k H. rewrite (fresh_ch_empty fx s I) in H. discriminate.
+  - intros ch' _ H. destruct (i_val fx s I ch' i H) as (A & B & C). fold a in A, B, C.
     rewrite Ech, Eap. repeat split; auto.
 Qed.
 
 (* Response wins the responseClosed CAS *)
-Lemma step_cas s i n c :
-  Inv s -> rp (asks s i) = RCall (S n) -> a_ctx (asks s i) = Some c -> closed (ctxs s c) = false ->
-  Inv (set_rp (set_closed s c true) i (RSend n)).
+Lemma step_cas fx s i n c :
+  Inv fx s -> rp (asks s i) = RCall (S n) -> a_ctx (asks s i) = Some c -> closed (ctxs s c) = false ->
+  Inv fx (set_rp (set_closed s c true) i (RSend n)).
 Proof.
   intros I Hrp Hc Hcl.
-  pose proof (i_local s I i) as L. destruct L as [Ls Lu Lx [Lpc1 Lpc2] Le Ll Li Lr Lf Lle Lsd Lt Lk Lfl].
+  pose proof (i_local fx s I i) as L. destruct L as [Ls Lrec Lu Lx [Lpc1 Lpc2] Le Ll Li Lr Lf Lle Lsd Lt Lk Lfl].
   assert (Hci : cown_a (asks s i) c) by (right; split; auto; rewrite Hrp; discriminate).
   assert (Hnq : ~ quiet_a s (asks s i)).
   { unfold quiet_a, closed_a. rewrite Hrp, Hc, Hcl. discriminate. }
   eapply inv_step_frame with (i := i) (c0 := c) (ch0 := nch s); try exact I; cbn; try reflexivity; auto.
   - intros c' Hne. now rewrite upd_neq.
-  - intros k Hne H. apply Hne. apply (i_xctx s I k i c H Hci).
-  - intros k _. now apply fresh_ch_unowned.
+  - intros k Hne H. apply Hne. apply (i_xctx fx s I k i c H Hci).
+  - intros k _. now apply (fresh_ch_unowned fx).
   - constructor; cbn; unfold closed_a; cbn; rewrite ?Hc.
     + exact Ls.
+    + intros _ H; discriminate.
     + exact Lu.
     + intros c' [H|[H _]]; apply Lx; [left; exact H|right; split; [cbn in H; congruence|rewrite Hrp; discriminate]].
     + split; [intros c' H; rewrite <- Hc; now apply Lpc1|exact Lpc2].
@@ -670,21 +697,21 @@ Proof.
     + exact Lk.
     + exact Lfl.
   - unfold cown_a. cbn. intros c' [H|[H _]]; left; [now left|right; split; [congruence|rewrite Hrp; discriminate]].
-  - apply (i_pch s I).
-  - apply (i_pctx s I).
-  - intros k H. rewrite (fresh_ch_empty s I) in H. discriminate.
-  - intros ch' _ H. exfalso. apply Hnq. now destruct (i_val s I ch' i H) as (_ & B & _).
+  - apply (i_pch fx s I).
+  - apply (i_pctx fx s I).
+  - intros k H. rewrite (fresh_ch_empty fx s I) in H. discriminate.
+  - intros ch' _ H. exfalso. apply Hnq. now destruct (i_val fx s I ch' i H) as (_ & B & _).
 Qed.
 
 (* facts about an ask whose handler is about to send *)
-Lemma sending_facts s i n c :
-  Inv s -> rp (asks s i) = RSend n -> a_ctx (asks s i) = Some c ->
+Lemma sending_facts fx s i n c :
+  Inv fx s -> rp (asks s i) = RSend n -> a_ctx (asks s i) = Some c ->
   exists ch, a_ch (asks s i) = Some ch /\ cresp (ctxs s c) = Some ch /\ chans s ch = None /\
              owns_a (asks s i) ch /\
              (reading (ap (asks s i)) = true /\ ch_of (ap (asks s i)) = Some ch \/ ap (asks s i) = ADone None).
 Proof.
   intros I Hrp Hc.
-  pose proof (i_local s I i) as L. destruct L as [Ls Lu Lx [Lpc1 Lpc2] Le Ll Li Lr Lf Lle Lsd Lt Lk Lfl].
+  pose proof (i_local fx s I i) as L. destruct L as [Ls Lrec Lu Lx [Lpc1 Lpc2] Le Ll Li Lr Lf Lle Lsd Lt Lk Lfl].
   assert (Hnq : ~ quiet_a s (asks s i)) by (unfold quiet_a; rewrite Hrp; auto).
   assert (Hearly : early (ap (asks s i)) = false).
   { destruct (early (ap (asks s i))) eqn:E; auto. destruct (Le eq_refl) as (_ & _ & H & _). congruence. }
@@ -698,25 +725,26 @@ Proof.
   { destruct Hshape as [(_ & H)|H]; [now left|right; auto]. }
   repeat split; auto.
   destruct (chans s ch) as [k|] eqn:E; auto. exfalso.
-  assert (k = i) by (apply (i_uch s I k i ch); [now apply val_owner|exact Hown]). subst k.
-  apply Hnq. now destruct (i_val s I ch i E) as (_ & Q & _).
+  assert (k = i) by (apply (i_uch fx s I k i ch); [now apply (val_owner fx)|exact Hown]). subst k.
+  apply Hnq. now destruct (i_val fx s I ch i E) as (_ & Q & _).
 Qed.
 
-Lemma step_send s i n c :
-  Inv s -> rp (asks s i) = RSend n -> a_ctx (asks s i) = Some c -> Inv (step true s (LResp i)).
+Lemma step_send fx fx' s i n c :
+  Inv fx s -> rp (asks s i) = RSend n -> a_ctx (asks s i) = Some c -> Inv fx (step fx' s (LResp i)).
 Proof.
   intros I Hrp Hc.
-  destruct (sending_facts s i n c I Hrp Hc) as (ch & Hch & Hcr & Hemp & Hown & Hshape).
+  destruct (sending_facts fx s i n c I Hrp Hc) as (ch & Hch & Hcr & Hemp & Hown & Hshape).
   cbn. rewrite Hrp, Hc, Hcr, Hemp.
-  pose proof (i_local s I i) as L. destruct L as [Ls Lu Lx [Lpc1 Lpc2] Le Ll Li Lr Lf Lle Lsd Lt Lk Lfl].
+  pose proof (i_local fx s I i) as L. destruct L as [Ls Lrec Lu Lx [Lpc1 Lpc2] Le Ll Li Lr Lf Lle Lsd Lt Lk Lfl].
   assert (Hnq : ~ quiet_a s (asks s i)) by (unfold quiet_a; rewrite Hrp; auto).
   assert (Hclosed : closed (ctxs s c) = true) by (specialize (Lsd n Hrp); unfold closed_a in Lsd; now rewrite Hc in Lsd).
   eapply inv_step_frame with (i := i) (c0 := nctx s) (ch0 := ch); try exact I; cbn; try reflexivity; auto.
-  - intros k _. now apply fresh_ctx_unowned.
+  - intros k _. now apply (fresh_ctx_unowned fx).
   - intros ch' Hne. now rewrite upd_neq.
-  - intros k Hne H. apply Hne. apply (i_uch s I k i ch H Hown).
+  - intros k Hne H. apply Hne. apply (i_uch fx s I k i ch H Hown).
   - constructor; cbn; unfold closed_a; cbn; rewrite ?Hc, ?Hclosed.
     + exact Ls.
+    + intros _ H; discriminate.
     + exact Lu.
     + intros c' [H|[H _]]; apply Lx; [left; exact H|right; split; [cbn in H; congruence|rewrite Hrp; discriminate]].
     + split; [intros c' H; rewrite <- Hc; now apply Lpc1|exact Lpc2].
@@ -734,28 +762,30 @@ Proof.
       * rewrite D in *. apply orb_true_iff in H. destruct H as [H|H]; [now apply Lfl|].
         rewrite (Lk (or_introl eq_refl)) in H. cbn in H. rewrite andb_false_r in H. discriminate.
   - unfold cown_a. cbn. intros c' [H|[H _]]; left; [now left|right; split; [cbn in H; congruence|rewrite Hrp; discriminate]].
-  - apply (i_pch s I).
-  - apply (i_pctx s I).
+  - apply (i_pch fx s I).
+  - apply (i_pctx fx s I).
   - intros k. rewrite !upd_eq. intros H. inversion H; subst k. rewrite upd_eq. cbn.
     repeat split; auto.
     destruct Hshape as [(R & _)|D]; auto.
-  - intros ch' Hne H. exfalso. apply Hne. destruct (i_val s I ch' i H) as (A & _). congruence.
+  - intros ch' Hne H. exfalso. apply Hne. destruct (i_val fx s I ch' i H) as (A & _). congruence.
 Qed.
 
-Lemma step_recycle s i c :
-  Inv s -> rp (asks s i) = RDone -> a_ctx (asks s i) = Some c -> Inv (step true s (LRecycle i)).
+Lemma step_recycle fx fx' s i c :
+  Inv fx s -> rp (asks s i) = RDone -> a_ctx (asks s i) = Some c ->
+  (fx = false -> exists r, ap (asks s i) = ADone r) -> Inv fx (step fx' s (LRecycle i)).
 Proof.
-  intros I Hrp Hc. cbn. rewrite Hrp, Hc.
-  pose proof (i_local s I i) as L. destruct L as [Ls Lu Lx [Lpc1 Lpc2] Le Ll Li Lr Lf Lle Lsd Lt Lk Lfl].
+  intros I Hrp Hc Hguard. cbn. rewrite Hrp, Hc.
+  pose proof (i_local fx s I i) as L. destruct L as [Ls Lrec Lu Lx [Lpc1 Lpc2] Le Ll Li Lr Lf Lle Lsd Lt Lk Lfl].
   assert (Hci : cown_a (asks s i) c) by (right; split; auto; rewrite Hrp; discriminate).
   destruct (Lx c Hci) as (Hnp & Hlt).
   eapply inv_step_frame with (i := i) (c0 := c) (ch0 := nch s); try exact I; cbn; try reflexivity; auto.
   - intros c' Hne. now rewrite upd_neq.
-  - intros k Hne H. apply Hne. apply (i_xctx s I k i c H Hci).
-  - intros k _. now apply fresh_ch_unowned.
+  - intros k Hne H. apply Hne. apply (i_xctx fx s I k i c H Hci).
+  - intros k _. now apply (fresh_ch_unowned fx).
   - intros c' H. apply in_app_or in H. destruct H as [H|[H|[]]]; auto.
   - constructor; cbn; unfold closed_a; cbn.
     + exact Ls.
+    + intros Hfx _. now apply Hguard.
     + exact Lu.
     + intros c' [H|[_ H]]; [|exfalso; apply H; reflexivity]. exfalso. cbn in H.
       assert (early (ap (asks s i)) = true) by (rewrite H; reflexivity).
@@ -772,39 +802,100 @@ Proof.
     + exact Lk.
     + exact Lfl.
   - unfold cown_a. cbn. intros c' [H|[_ H]]; [left; now left|exfalso; apply H; reflexivity].
-  - apply (i_pch s I).
+  - apply (i_pch fx s I).
   - split.
-    + apply NoDup_snoc; [apply (i_pctx s I)|exact Hnp].
-    + intros c' H. apply in_app_or in H. destruct H as [H|[<-|[]]]; [now apply (i_pctx s I)|exact Hlt].
-  - intros k H. rewrite (fresh_ch_empty s I) in H. discriminate.
-  - intros ch' _ H. destruct (i_val s I ch' i H) as (A & B & C). repeat split; auto.
+    + apply NoDup_snoc; [apply (i_pctx fx s I)|exact Hnp].
+    + intros c' H. apply in_app_or in H. destruct H as [H|[<-|[]]]; [now apply (i_pctx fx s I)|exact Hlt].
+  - intros k H. rewrite (fresh_ch_empty fx s I) in H. discriminate.
+  - intros ch' _ H. destruct (i_val fx s I ch' i H) as (A & B & C). repeat split; auto.
+Qed.
+
+(* the asker's store of responseClosed := true after it took the reply (the code as it exists): harmless
+   as long as the context is still the one of this Ask *)
+Lemma step_store fx s i c ch v :
+  fx = false -> Inv fx s -> ap (asks s i) = AGotStore c ch v ->
+  Inv fx (set_ap (set_closed s c true) i (AGotDrain c ch v)).
+Proof.
+  intros Hfx I Hap.
+  pose proof (i_local fx s I i) as L. destruct L as [Ls Lrec Lu Lx [Lpc1 Lpc2] Le Ll Li Lr Lf Lle Lsd Lt Lk Lfl].
+  rewrite Hap in *. cbn in *.
+  pose proof (Lpc1 c eq_refl) as Hc. destruct (Lt v eq_refl) as (-> & Hq).
+  assert (Hnr : rp (asks s i) <> RRecycled).
+  { intros H. destruct (Lrec Hfx H) as (r & E). discriminate. }
+  assert (Hci : cown_a (asks s i) c) by (right; auto).
+  assert (Hoi : owns_a (asks s i) ch) by (left; rewrite Hap; reflexivity).
+  eapply inv_step_frame with (i := i) (c0 := c) (ch0 := nch s); try exact I; cbn; try reflexivity; auto.
+  - intros c' Hne. now rewrite upd_neq.
+  - intros k Hne H. apply Hne. apply (i_xctx fx s I k i c H Hci).
+  - intros k _. now apply (fresh_ch_unowned fx).
+  - constructor; cbn; unfold closed_a; cbn; rewrite ?Hc, ?upd_eq; cbn.
+    + reflexivity.
+    + intros _ H. contradiction.
+    + intros ch' [H|[H _]]; [apply Lu; left; rewrite Hap; exact H|discriminate].
+    + intros c' [H|[H _]]; [discriminate|]. apply Lx. right. split; auto.
+    + split; intros ? H; inversion H; subst; auto.
+    + discriminate.
+    + intros H. destruct (Ll H) as (c' & ch' & A & B). exists c, ch'. split; auto.
+    + split; [intros H; apply Li in H; destruct H as [H|(c' & ch' & H)]; discriminate|intros [H|(c' & ch' & H)]; discriminate].
+    + intros c' H _. inversion H; subst c'. rewrite upd_eq. cbn. apply Lr; auto.
+    + intros H. exfalso. unfold quiet_a in Hq.
+      destruct H as [H|H]; rewrite H in Hq; [exact Hq|]. rewrite (Lf (or_intror H)) in Hq. discriminate.
+    + exact Lle.
+    + intros; reflexivity.
+    + intros v H. inversion H; subst v. split; auto.
+      unfold quiet_a in *. cbn. destruct (rp (asks s i)); auto. unfold closed_a. cbn. rewrite ?Hc, ?upd_eq. reflexivity.
+    + intros [H|(c' & ch' & H)]; discriminate.
+    + auto.
+  - unfold owns_a. cbn. intros ch' [H|[H _]]; [left; left; rewrite Hap; exact H|discriminate].
+  - unfold cown_a. cbn. intros c' [H|H]; [discriminate|]. left. now right.
+  - apply (i_pch fx s I).
+  - apply (i_pctx fx s I).
+  - intros k H. rewrite (fresh_ch_empty fx s I) in H. discriminate.
+  - intros ch' _ H. destruct (i_val fx s I ch' i H) as (_ & _ & C). rewrite Hap in C. destruct C; discriminate.
 Qed.
 
 (* ------------------------------------------------------------------ every step preserves the invariant *)
 
-Lemma inv_step s l : Inv s -> Inv (step true s l).
+(* The executions considered. For the repaired shape: all. For the shape that exists: those in which no
+   Ask takes the timeout/cancel branch and a ReceiveContext is recycled only after its Ask returned. *)
+Definition allowed (fx : bool) (s : state) (l : label) : Prop :=
+  fx = true \/
+  match l with
+  | LAsker i _ SelTimer => forall c ch, ap (asks s i) <> AWait c ch
+  | LRecycle i => exists r, ap (asks s i) = ADone r
+  | _ => True
+  end.
+
+Lemma inv_step fx s l : Inv fx s -> allowed fx s l -> Inv fx (step fx s l).
 Proof.
-  intros I. destruct l as [i o sl|i|i|i].
+  intros I Hal. destruct l as [i o sl|i|i|i].
   - (* asker *)
-    pose proof (l_shape _ _ _ (i_local s I i)) as Hshape.
+    pose proof (l_shape _ _ _ _ (i_local fx s I i)) as Hshape.
     destruct (ap (asks s i)) eqn:Hap; try discriminate.
     + eapply step_new; eauto.
     + eapply step_build; eauto.
     + eapply step_enq; eauto.
     + cbn. rewrite Hap. destruct sl.
-      * destruct (chans s ch) as [v|] eqn:Hv; [|exact I]. apply (step_take s i c ch v I); auto.
-      * destruct (ticked (asks s i)) eqn:Ht; [|exact I]. now apply step_wait_timer.
-    + cbn. rewrite Hap. exact (step_drain s i c ch v I Hap).
-    + cbn. rewrite Hap. exact (step_push s i c ch v I Hap).
-    + cbn. rewrite Hap. destruct (chans s ch) as [v|] eqn:Hv; [apply (step_take s i c ch v I); auto|exact (step_poll_none s i c ch I Hap Hv)].
+      * destruct (chans s ch) as [v|] eqn:Hv; [|exact I].
+        destruct fx; eapply (step_take _ s i c ch v); eauto.
+      * destruct (ticked (asks s i)) eqn:Ht; [|exact I].
+        destruct fx; [now apply step_wait_timer|].
+        exfalso. destruct Hal as [H|H]; [discriminate|]. now apply (H c ch).
+    + cbn in Hshape. subst fx. cbn. rewrite Hap. now apply step_store.
+    + cbn. rewrite Hap. exact (step_drain fx s i c ch v I Hap).
+    + cbn. rewrite Hap. exact (step_push fx s i c ch v I Hap).
+    + cbn in Hshape. apply negb_false_iff in Hshape. subst fx.
+      cbn. rewrite Hap. destruct (chans s ch) as [v|] eqn:Hv;
+        [eapply (step_take _ s i c ch v); eauto|exact (step_poll_none true s i c ch I Hap Hv)].
     + cbn. rewrite Hap. exact I.
   - (* handler *)
-    pose proof (i_local s I i) as L. destruct L as [Ls Lu Lx [Lpc1 Lpc2] Le Ll Li Lr Lf Lle Lsd Lt Lk Lfl].
+    pose proof (i_local fx s I i) as L. destruct L as [Ls Lrec Lu Lx [Lpc1 Lpc2] Le Ll Li Lr Lf Lle Lsd Lt Lk Lfl].
     destruct (rp (asks s i)) as [|[|n]|n| |] eqn:Hrp; try (cbn; rewrite Hrp; try destruct (a_ctx (asks s i)); exact I).
     + (* RCall 0 -> RDone *)
       cbn. rewrite Hrp. apply step_ask_only; cbn; auto; try tauto.
       * rewrite Hrp. split; discriminate.
       * rewrite Hrp. split; discriminate.
+      * discriminate.
       * intros [H|H]; discriminate.
       * intros m. split; discriminate.
       * intros; discriminate.
@@ -817,6 +908,7 @@ Proof.
       apply step_ask_only; cbn; auto; try tauto.
       * rewrite Hrp. split; discriminate.
       * rewrite Hrp. split; discriminate.
+      * discriminate.
       * intros [H|H]; [discriminate|]. exfalso. inversion H. destruct (Lle (S n)) as (A & _). assert (S n <= nresp (asks s i)) by (apply A; (exact Hrp || reflexivity)). lia.
       * intros m. split; [|discriminate]. intros H. inversion H; subst m. destruct (Lle (S n)) as (A & _). assert (S n <= nresp (asks s i)) by (apply A; (exact Hrp || reflexivity)). lia.
       * intros; discriminate.
@@ -825,53 +917,61 @@ Proof.
       destruct (a_ctx (asks s i)) as [c|] eqn:Hc; [|cbn; rewrite Hrp, Hc; exact I].
       eapply step_send; eauto.
   - (* the deadline passes *)
-    pose proof (i_local s I i) as L. destruct L as [Ls Lu Lx [Lpc1 Lpc2] Le Ll Li Lr Lf Lle Lsd Lt Lk Lfl].
+    pose proof (i_local fx s I i) as L. destruct L as [Ls Lrec Lu Lx [Lpc1 Lpc2] Le Ll Li Lr Lf Lle Lsd Lt Lk Lfl].
     cbn. apply step_ask_only; cbn; auto; try tauto.
   - (* recycling *)
     destruct (rp (asks s i)) eqn:Hrp; try (cbn; rewrite Hrp; exact I).
     destruct (a_ctx (asks s i)) as [c|] eqn:Hc; [|cbn; rewrite Hrp, Hc; exact I].
     eapply step_recycle; eauto.
+    intros Hfx. destruct Hal as [H|H]; [congruence|exact H].
 Qed.
 
 (* ------------------------------------------------------------------ reachable states and the property *)
 
-Inductive reach (nresps : list nat) : state -> Prop :=
-| reach_init : reach nresps (init nresps)
-| reach_step s l : reach nresps s -> reach nresps (step true s l).
+Inductive reach (fx : bool) (nresps : list nat) : state -> Prop :=
+| reach_init : reach fx nresps (init nresps)
+| reach_step s l : reach fx nresps s -> allowed fx s l -> reach fx nresps (step fx s l).
 
-Lemma reach_inv nresps s : reach nresps s -> Inv s.
+Lemma reach_inv fx nresps s : reach fx nresps s -> Inv fx s.
 Proof. induction 1; [apply inv_init|now apply inv_step]. Qed.
 
-Lemma reach_run nresps ls : forall s, reach nresps s -> reach nresps (run true s ls).
-Proof. induction ls as [|l ls IH]; intros s H; cbn; auto. apply IH. now constructor. Qed.
+Lemma reach_run nresps ls : forall s, reach true nresps s -> reach true nresps (run true s ls).
+Proof. induction ls as [|l ls IH]; intros s H; cbn; auto. apply IH. constructor; auto. now left. Qed.
 
 (* an Ask that returns a reply returns the reply to its own request *)
-Lemma fixed_no_cross nresps s i v : reach nresps s -> result s i = Some (Some v) -> v = i.
+Lemma proto_no_cross fx nresps s i v : reach fx nresps s -> result s i = Some (Some v) -> v = i.
 Proof.
-  intros H R. pose proof (l_took _ _ _ (i_local s (reach_inv _ _ H) i) v) as T.
+  intros H R. pose proof (l_took _ _ _ _ (i_local fx s (reach_inv _ _ _ H) i) v) as T.
   unfold result in R. destruct (ap (asks s i)) as [| | | | | | | | | | |r] eqn:E; try discriminate.
   inversion R; subst r. cbn in T. now destruct (T eq_refl).
 Qed.
 
 (* an Ask whose handler's Response call returned before the deadline does not fail *)
-Lemma fixed_in_time nresps s i :
-  reach nresps s -> result s i = Some None -> replied_in_time (asks s i) = false.
+Lemma proto_in_time fx nresps s i :
+  reach fx nresps s -> result s i = Some None -> replied_in_time (asks s i) = false.
 Proof.
-  intros H R. pose proof (l_flag _ _ _ (i_local s (reach_inv _ _ H) i)) as F.
+  intros H R. pose proof (l_flag _ _ _ _ (i_local fx s (reach_inv _ _ _ H) i)) as F.
   unfold result in R. destruct (ap (asks s i)) as [| | | | | | | | | | |r] eqn:E; try discriminate.
   inversion R; subst r. destruct (replied_in_time (asks s i)); auto. destruct (F eq_refl).
 Qed.
 
-Lemma fixed_reply_returned nresps s i r :
-  reach nresps s -> result s i = Some r -> replied_in_time (asks s i) = true -> r = Some i.
+(* in the shape that exists, on the executions considered, no Ask fails *)
+Lemma asis_never_fails nresps s i : reach false nresps s -> result s i <> Some None.
 Proof.
-  intros H R F. destruct r as [v|].
-  - f_equal. eapply fixed_no_cross; eauto.
-  - rewrite (fixed_in_time _ _ _ H R) in F. discriminate.
+  intros H R. pose proof (l_shape _ _ _ _ (i_local false s (reach_inv _ _ _ H) i)) as S.
+  unfold result in R. destruct (ap (asks s i)) as [| | | | | | | | | | |[v|]]; try discriminate.
 Qed.
 
-(* the hypotheses are satisfiable: the three interleavings that defeat the code as it exists, replayed
-   on the repaired model (same thread schedule; the repaired asker takes fewer steps) *)
+Lemma proto_reply_returned fx nresps s i r :
+  reach fx nresps s -> result s i = Some r -> replied_in_time (asks s i) = true -> r = Some i.
+Proof.
+  intros H R F. destruct r as [v|].
+  - f_equal. eapply proto_no_cross; eauto.
+  - rewrite (proto_in_time _ _ _ _ H R) in F. discriminate.
+Qed.
+
+(* the hypotheses are satisfiable: the interleavings that defeat the code as it exists, replayed on the
+   repaired model (same thread schedule; the repaired asker takes fewer steps) *)
 Definition Ar (i : nat) : label := LAsker i None SelReply.
 Definition Atm (i : nat) : label := LAsker i None SelTimer.
 
@@ -879,10 +979,52 @@ Example ex_fixed_cross :
   let s := run true (init [1; 1])
              [Ar 0; Ar 0; Ar 0; LResp 0; LTick 0; Atm 0; Ar 0;
               Ar 1; LAsker 1 (Some 0) SelReply; Ar 1; LResp 0; LResp 0; LResp 1; LResp 1; LResp 1; Ar 1; Ar 1; Ar 1] in
-  reach [1; 1] s /\ results s 2 = [Some None; Some (Some 1)] /\ replied_in_time (asks s 0) = false.
+  reach true [1; 1] s /\ results s 2 = [Some None; Some (Some 1)] /\ replied_in_time (asks s 0) = false.
 Proof. split; [apply reach_run; constructor|]. vm_compute. split; reflexivity. Qed.
 
 Example ex_fixed_both_ready :
   let s := run true (init [1]) [Ar 0; Ar 0; Ar 0; LResp 0; LResp 0; LTick 0; Atm 0; Ar 0; Ar 0; Ar 0] in
-  reach [1] s /\ results s 1 = [Some (Some 0)] /\ replied_in_time (asks s 0) = true.
+  reach true [1] s /\ results s 1 = [Some (Some 0)] /\ replied_in_time (asks s 0) = true.
 Proof. split; [apply reach_run; constructor|]. vm_compute. split; reflexivity. Qed.
+
+(* a decidable version of [allowed], to exhibit guarded executions of the shape that exists *)
+Definition allowedb (fx : bool) (s : state) (l : label) : bool :=
+  fx ||
+  match l with
+  | LAsker i _ SelTimer => match ap (asks s i) with AWait _ _ => false | _ => true end
+  | LRecycle i => match ap (asks s i) with ADone _ => true | _ => false end
+  | _ => true
+  end.
+
+Lemma allowedb_sound fx s l : allowedb fx s l = true -> allowed fx s l.
+Proof.
+  unfold allowedb, allowed. destruct fx; [now left|]. cbn. intros H. right.
+  destruct l as [i o [|]|i|i|i]; auto.
+  - intros c ch E. rewrite E in H. discriminate.
+  - destruct (ap (asks s i)); try discriminate. eauto.
+Qed.
+
+Fixpoint run_ok (fx : bool) (s : state) (ls : list label) : bool :=
+  match ls with
+  | [] => true
+  | l :: r => allowedb fx s l && run_ok fx (step fx s l) r
+  end.
+
+Lemma reach_run_ok fx nresps ls : forall s, reach fx nresps s -> run_ok fx s ls = true -> reach fx nresps (run fx s ls).
+Proof.
+  induction ls as [|l ls IH]; intros s H Hok; cbn in *; auto.
+  apply andb_true_iff in Hok. destruct Hok as (A & B).
+  apply IH; auto. constructor; auto. now apply allowedb_sound.
+Qed.
+
+(* two Asks in the shape that exists; the second is handed the first one's channel and recycled context *)
+Example ex_as_is_guarded :
+  let ls := [Ar 0; Ar 0; Ar 0; LResp 0; LResp 0; LTick 0; LResp 0; Ar 0; Ar 0; Ar 0; Ar 0; LRecycle 0;
+             LAsker 1 (Some 0) SelReply; LAsker 1 (Some 0) SelReply; Ar 1; LResp 1; LResp 1; LResp 1; Ar 1; Ar 1; Ar 1; Ar 1] in
+  let s := run false (init [1; 1]) ls in
+  reach false [1; 1] s /\ results s 2 = [Some (Some 0); Some (Some 1)] /\
+  a_ch (asks s 1) = a_ch (asks s 0) /\ a_ctx (asks s 1) = a_ctx (asks s 0).
+Proof.
+  split; [apply reach_run_ok; [constructor|vm_compute; reflexivity]|].
+  vm_compute. repeat split; reflexivity.
+Qed.
